@@ -1,0 +1,54 @@
+//go:build verif
+
+package sniproxy
+
+import (
+	"bytes"
+	"fmt"
+)
+
+// VerifServerFramesResult is one request as seen after the whole sequence was decoded.
+type VerifServerFramesResult struct {
+	Outcome string
+	ID      uint64
+	Typ     uint8
+	Vals    []VerifVal
+}
+
+// VerifServerFrames runs endpointServer.startCall over several frames on ONE
+// server, keeps every decoded request (as the per-call goroutines do while
+// they serve it) and reads their fields only after the last frame was decoded.
+func VerifServerFrames(frames [][]byte) (res []VerifServerFramesResult, panicked string) {
+	defer func() {
+		if r := recover(); r != nil {
+			panicked = fmt.Sprint(r)
+		}
+	}()
+	s := newEndpointServer(nil, nil, &Options{})
+	var held []*endpointExchange
+	for _, f := range frames {
+		x, err := s.startCall(bytes.NewReader(f))
+		if err != nil {
+			held = append(held, nil)
+			continue
+		}
+		held = append(held, x)
+	}
+	for _, x := range held {
+		switch {
+		case x == nil:
+			res = append(res, VerifServerFramesResult{Outcome: "decodeErr"})
+		default:
+			if _, ok := newRequestMessage(x.t); !ok {
+				res = append(res, VerifServerFramesResult{Outcome: "unknownType", ID: x.id, Typ: x.t})
+				continue
+			}
+			r := VerifServerFramesResult{Outcome: "request", ID: x.id, Typ: x.t}
+			if x.req != nil {
+				r.Vals = verifGet(x.req)
+			}
+			res = append(res, r)
+		}
+	}
+	return res, ""
+}
